@@ -230,3 +230,32 @@ def f_is_none(E, node):
     if isinstance(v, Opt):
         return Z(v.isnone, BOOL)
     return v is None
+
+
+@form('xsub')
+def f_xsub(E, node):
+    a, b = [lift(E.eval(x)) for x in node.args]
+    return xops.sub(xops.to_x(a), xops.to_x(b))
+
+
+@form('xadd')
+def f_xadd(E, node):
+    a, b = [lift(E.eval(x)) for x in node.args]
+    return xops.add(xops.to_x(a), xops.to_x(b))
+
+
+@form('ncols')
+def f_ncols(E, node):
+    f = E.eval(node.args[0])
+    return len(f.cols)
+
+
+@form('call_arg')
+def f_call_arg(E, node):
+    """call_arg('qualified.name', 'param'): the argument bound to `param` in the last logged call of that function"""
+    qual = E.eval(node.args[0])
+    name = E.eval(node.args[1])
+    for q, bound, res in reversed(E.st.calls):
+        if q == qual:
+            return bound[name]
+    raise Unsupported('no logged call of %s' % qual)
